@@ -540,8 +540,21 @@ Definition state_eqb (e : env) (s sh : state) : bool :=
   && forallb (fun d => sup_eqb (s_sup s d) (s_sup sh d) && (s_bsup s d =? s_bsup sh d)) (seq 0 (e_nden e))
   && forallb (fun a => forallb (fun d => s_bal s a d =? s_bal sh a d) (seq 0 (e_nden e))) (seq 0 (e_nacc e)).
 
-(* first step index (from 0) at which model and implementation differ,
-   or at which the model invariant evaluates to false *)
+(* the hypotheses of the theorems, checked on every recorded history: valid asset parameters and
+   the module account among the module accounts ([env_wf]); the module account never signs a
+   create and block heights do not decrease ([op_ok], [op_mono]) *)
+Definition env_wf_b (e : env) : bool :=
+  e_macc e (e_mod e) && forallb (fun a => 1 <=? a_min a) (e_assets e).
+
+Definition op_ok_b (e : env) (s : state) (o : op) : bool :=
+  match o with
+  | Create _ _ _ sender _ _ _ _ => negb (Nat.eqb sender (e_mod e))
+  | BeginBlock h _ => s_height s <=? h
+  | _ => true
+  end.
+
+(* first step index (from 0) at which model and implementation differ, at which the model
+   invariant evaluates to false, or at which a hypothesis of the theorems does not hold *)
 Fixpoint first_mismatch (e : env) (s sh : state) (h : list (op * obs)) (i : nat) : option nat :=
   match h with
   | [] => None
@@ -549,7 +562,7 @@ Fixpoint first_mismatch (e : env) (s sh : state) (h : list (op * obs)) (i : nat)
       let res := step e s o in
       let s' := match res with Ok s1 _ => s1 | _ => s end in
       let sh' := apply_obs sh ob in
-      if rclass_eqb (class_of res) (o_class ob) && state_eqb e s' sh' && inv_b e s'
+      if rclass_eqb (class_of res) (o_class ob) && state_eqb e s' sh' && inv_b e s' && op_ok_b e s o
       then first_mismatch e s' sh' r (S i)
       else Some i
   end.
@@ -582,7 +595,7 @@ Record history := mkHist {
 }.
 
 Definition check_history (h : history) : option nat :=
-  if inv_b (h_env h) (h_init h)
+  if inv_b (h_env h) (h_init h) && env_wf_b (h_env h)
   then first_mismatch (h_env h) (h_init h) (h_init h) (h_steps h) 0
   else Some 0%nat.
 
